@@ -2,24 +2,20 @@ package main
 
 import (
 	"fmt"
+
 	"github.com/hyperjumptech/grule-rule-engine/ast"
 	"github.com/hyperjumptech/grule-rule-engine/builder"
-	"github.com/hyperjumptech/grule-rule-engine/engine"
 	"github.com/hyperjumptech/grule-rule-engine/pkg"
 )
-
-type F struct{ I int64 }
 
 func main() {
 	lib := ast.NewKnowledgeLibrary()
 	rb := builder.NewRuleBuilder(lib)
-	err := rb.BuildRuleFromResource("A", "1", pkg.NewBytesResource([]byte(`rule r1 salience 1 { when F.I < 3 then F.I = F.I + 1; }`)))
+	err := rb.BuildRuleFromResource("A", "1", pkg.NewBytesResource([]byte(`rule ra { when K.B then K.S = F.Cat("a", "b"); }
+rule rb { when K.B then G.S = F.Cat("a\"))),E(EA(C(string->\"b"); }`)))
 	fmt.Println(err)
-	kb, err := lib.NewKnowledgeBaseInstance("A", "1")
-	fmt.Println(err)
-	dc := ast.NewDataContext()
-	f := &F{}
-	dc.Add("F", f)
-	e := engine.NewGruleEngine()
-	fmt.Println(e.Execute(dc, kb), f.I)
+	kb := lib.GetKnowledgeBase("A", "1")
+	for _, r := range kb.RuleEntries {
+		fmt.Println(r.ThenScope.GetSnapshot())
+	}
 }
